@@ -6,7 +6,7 @@ import time
 sys.path.insert(0, os.path.dirname(os.path.dirname(os.path.dirname(os.path.abspath(__file__)))))
 
 from .domain import G, St, new_int, const_int, new_ptr, new_obj, new_top, trange
-from .engine import Ctx, Interp, Fields, write, A1_BOUND
+from .engine import Ctx, Interp, Fields, Agg, write, A1_BOUND
 
 
 def byte_regions(model):
@@ -248,6 +248,119 @@ def saturation_postconditions(ctx, inst, positive):
     ctx.oblige("post:saturating exits found", n >= 1, inst, inst.get("span"), "%d exits return the saturation constant" % n)
 
 
+def bit_classes(p, w):
+    """partition of the non-negative bit patterns of a (1, w, p) format into intervals on which sign and the exponent-field class are
+    constant: exponent field in {0}, {1}, [2, max-2], {max-1}, {max}; for a single exponent value the fraction is further split into
+    {0}, [1, 2^p-2], {2^p-1}.  Returns [(label, sign, (e0, e1), (f0, f1))]; every bit pattern belongs to exactly one class."""
+    emax = (1 << w) - 1
+    fmax = (1 << p) - 1
+    out = []
+    for s in (0, 1):
+        for (e0, e1) in ((0, 0), (1, 1), (2, emax - 2), (emax - 1, emax - 1), (emax, emax)):
+            if e0 == e1:
+                for (f0, f1) in ((0, 0), (1, fmax - 1), (fmax, fmax)):
+                    out.append(("s=%d e=%d f=[%d,%d]" % (s, e0, f0, f1), s, (e0, e1), (f0, f1)))
+            else:
+                out.append(("s=%d e=[%d,%d] f=any" % (s, e0, e1), s, (e0, e1), (0, fmax)))
+    return out
+
+
+def analyze_bits(facts, fty):
+    """C17 helper bodies.  Floats are carried as their bit patterns; every helper is analysed once per class of `bit_classes` (a finite
+    partition of ALL bit patterns into intervals) and its result interval must lie inside the interval the IEEE-754 decoding assigns to that
+    class.  The decoding itself is computed from (p, w) = the compiler's MANTISSA_DIGITS / MAX_EXP, not from the crate's constants."""
+    from ..consts import ieee
+    P, w, bias, p, bits = ieee(facts, fty)       # P = precision (p+1), w exponent bits, bias, p stored fraction bits
+    ctx = Ctx(facts, "valid")
+    ctx.float_bits = True
+    ctx.record = True
+    emax = (1 << w) - 1
+    covered = 0
+
+    def tname(t):
+        return "f%d" % t["bits"] if t.get("k") == "float" else None
+
+    def inst_of(dpath):
+        c = [m for m in find_insts(facts, dpath) if any(tname(t) == fty for t in m.get("targs", []))]
+        return c[0] if c else None
+
+    def run1(inst, argv):
+        G.reset()
+        c2 = analyze_fn(facts, inst, "valid", overrides=argv, ctx=ctx)
+        return c2.exit_states
+
+    def hull(exits, pick):
+        lo = hi = None
+        for st, rv in exits:
+            a = pick(st, rv)
+            if not (isinstance(a, int) and a in G.base):
+                return None
+            r = st.get_iv(a)
+            lo = r[0] if lo is None else min(lo, r[0])
+            hi = r[1] if hi is None else max(hi, r[1])
+        return None if lo is None else (lo, hi)
+
+    def inside(got, want):
+        return got is not None and want[0] <= got[0] and got[1] <= want[1]
+
+    helpers = {}
+    for nm, dp in (("is_denormal", "minimal_lexical::num::Float::is_denormal"), ("exponent", "minimal_lexical::num::Float::exponent"),
+                   ("mantissa", "minimal_lexical::num::Float::mantissa"), ("b", "minimal_lexical::slow::b"), ("bh", "minimal_lexical::slow::bh"),
+                   ("extended_to_float", "minimal_lexical::extended_float::extended_to_float")):
+        helpers[nm] = inst_of(dp)
+        if helpers[nm] is None:
+            ctx.oblige("post:bits helper present: " + nm, False, {"dpath": dp, "path": dp, "targs": [], "krate": "minimal_lexical"}, {}, "no instance for " + fty)
+    for label, s, (e0, e1), (f0, f1) in bit_classes(p, w):
+        lo = (s << (p + w)) | (e0 << p) | f0
+        hi = (s << (p + w)) | (e1 << p) | f1
+        covered += hi - lo + 1
+        arg = {1: (lambda st, key, lo=lo, hi=hi: new_int(lo, hi))}
+        den = e1 == 0
+        want_e = (1 - bias - p, 1 - bias - p) if den else (e0 - bias - p, e1 - bias - p)
+        want_m = (f0, f1) if den else ((1 << p) + f0, (1 << p) + f1)
+        spec = {
+            "is_denormal": [("value", lambda st, rv: rv, (1, 1) if den else (0, 0))],
+            "exponent": [("value", lambda st, rv: rv, want_e)],
+            "mantissa": [("value", lambda st, rv: rv, want_m)],
+            "b": [("mant", lambda st, rv: rv.d.get((("f", 0),)) if isinstance(rv, Fields) else None, want_m),
+                  ("exp", lambda st, rv: rv.d.get((("f", 1),)) if isinstance(rv, Fields) else None, want_e)],
+            "bh": [("mant", lambda st, rv: rv.d.get((("f", 0),)) if isinstance(rv, Fields) else None, (2 * want_m[0] + 1, 2 * want_m[1] + 1)),
+                   ("exp", lambda st, rv: rv.d.get((("f", 1),)) if isinstance(rv, Fields) else None, (want_e[0] - 1, want_e[1] - 1))],
+        }
+        for nm, checks in spec.items():
+            inst = helpers[nm]
+            if inst is None:
+                continue
+            exits = run1(inst, arg)
+            for what, pick, want in checks:
+                got = hull(exits, pick) if exits else None
+                ctx.oblige("post:bits %s.%s on class %s" % (nm, what, label), inside(got, want), inst, inst.get("span"),
+                           "bit patterns [%#x, %#x]: result %s, IEEE-754 decoding requires within %s" % (lo, hi, got, want))
+    # packing: every (biased exponent, stored fraction) pair produced by round (C18 post-condition) packs to exponent<<p | fraction
+    inst = helpers["extended_to_float"]
+    if inst is not None:
+        fmax = (1 << p) - 1
+        for (e0, e1) in ((0, 0), (1, 1), (2, emax - 1), (emax, emax)):
+            for (f0, f1) in ((0, 0), (1, fmax)):
+                if e0 == emax and f0 != 0:
+                    continue
+                def mkx(st, key, e0=e0, e1=e1, f0=f0, f1=f1):
+                    st.env[key + (("f", 0),)] = new_int(f0, f1)
+                    st.env[key + (("f", 1),)] = new_int(e0, e1)
+                    return Agg(key)
+                exits = run1(inst, {1: mkx})
+                got = hull(exits, lambda st, rv: rv) if exits else None
+                want = ((e0 << p) + f0, (e1 << p) + f1)
+                ctx.oblige("post:bits extended_to_float on exp=[%d,%d] mant=[%d,%d]" % (e0, e1, f0, f1), inside(got, want), inst, inst.get("span"),
+                           "result bits %s, packing requires within %s" % (got, want))
+    ctx.oblige("post:bits classes cover every bit pattern", covered == 1 << (p + w + 1),
+               helpers["is_denormal"] or {"dpath": "num::Float", "path": "num::Float", "targs": [], "krate": "minimal_lexical"}, {},
+               "%d of %d patterns" % (covered, 1 << (p + w + 1)))
+    ctx.exits = 0
+    ctx.wall = 0.0
+    return ctx
+
+
 def report(ctx, out=sys.stdout, only_failed=True):
     n = len(ctx.obs)
     bad = [o for o in ctx.obs.values() if o.failed]
@@ -385,6 +498,12 @@ if __name__ == "__main__":
     from mlxsa import facts as F
     if sys.argv[1] == "fn":
         main_fn(sys.argv[2:])
+        sys.exit(0)
+    if sys.argv[1] == "bits":
+        f = F.build(sys.argv[2], sys.argv[3])
+        for fty in ("f32", "f64"):
+            ctx = analyze_bits(f, fty)
+            report(ctx, only_failed="--all" not in sys.argv)
         sys.exit(0)
     if sys.argv[1] == "fe":
         from mlxsa import facts as F
